@@ -366,6 +366,19 @@ func TestC03(t *testing.T) {
 		// names that coincide: parameters named like a built-in, like the function itself, like a sibling
 		// function or like a global; the activation's binding wins for reads, assignments, calls and captures,
 		// and the outer binding is untouched afterwards
+		c.Sub("scale", func(s *Sub) {
+			if c.Shard != 0 {
+				return
+			}
+			c.stepOverride = 40000000
+			defer func() { c.stepOverride = 0 }()
+			for _, n := range c.scaleSizes([]int{1000, 5000}, []int{20000, 70000}) {
+				c.c03Program(s, "scale", scaleNames(n))
+			}
+			for _, d := range c.scaleSizes([]int{100, 500}, []int{1000, 2000}) {
+				c.c03Program(s, "scale", scaleScopes(d))
+			}
+		})
 		c.Rapid("coinciding-names", n/4, func(rt *rapid.T, s *Sub) {
 			c.c03Program(s, "coinciding-names", genCoincidingNames(rt))
 		})
